@@ -709,49 +709,66 @@ const maxReplaysPerObligation = 3
 func reachableAll(labels []string, byLabel map[string][]*symex.VC, opts symex.DischargeOpts) map[string]bool {
 	out := map[string]bool{}
 	var mu sync.Mutex
-	var wg sync.WaitGroup
 	sem := make(chan struct{}, 16)
 	o := opts
 	if o.FPTimeout > 90*time.Second {
 		o.FPTimeout = 90 * time.Second
 	}
-	for pass := 0; pass < 2; pass++ {
-		for _, label := range labels {
-			if out[label] {
-				continue
-			}
-			vcs := append([]*symex.VC(nil), byLabel[label]...)
-			sort.SliceStable(vcs, func(i, j int) bool { return smt.Size(vcs[i].PC...) < smt.Size(vcs[j].PC...) })
-			if pass == 0 && len(vcs) > 6 {
-				vcs = vcs[:6]
-			}
-			if len(vcs) > 24 {
-				vcs = vcs[:24]
-			}
-			for _, vc := range vcs {
-				wg.Add(1)
-				go func(label string, vc *symex.VC) {
-					defer wg.Done()
-					sem <- struct{}{}
-					defer func() { <-sem }()
+	try := func(label string, vcs []*symex.VC, exact bool) {
+		var wg sync.WaitGroup
+		for _, vc := range vcs {
+			wg.Add(1)
+			go func(vc *symex.VC) {
+				defer wg.Done()
+				sem <- struct{}{}
+				defer func() { <-sem }()
+				mu.Lock()
+				done := out[label]
+				mu.Unlock()
+				if done {
+					return
+				}
+				r, _, _ := symex.SolvePath(symex.PathEnd{PC: vc.PC, Nondets: vc.Nondets}, o, exact)
+				if r == smt.Sat {
 					mu.Lock()
-					done := out[label]
+					out[label] = true
 					mu.Unlock()
-					if done {
-						return
-					}
-					// pass 0: abstraction-guided only; pass 1: exact query for labels still without a witness
-					r, _, _ := symex.SolvePath(symex.PathEnd{PC: vc.PC, Nondets: vc.Nondets}, o, pass == 1)
-					if r == smt.Sat {
-						mu.Lock()
-						out[label] = true
-						mu.Unlock()
-					}
-				}(label, vc)
-			}
+				}
+			}(vc)
 		}
 		wg.Wait()
 	}
+	// pass 0: abstraction-guided only, the 6 smallest path conditions; pass 1: exact queries for
+	// labels still without a witness, in batches of 24 by size (the smallest paths to an assertion
+	// are often the infeasible early exits of the code under test), up to 240 paths
+	var wg sync.WaitGroup
+	for _, label := range labels {
+		wg.Add(1)
+		go func(label string) {
+			defer wg.Done()
+			vcs := append([]*symex.VC(nil), byLabel[label]...)
+			sort.SliceStable(vcs, func(i, j int) bool { return smt.Size(vcs[i].PC...) < smt.Size(vcs[j].PC...) })
+			first := vcs
+			if len(first) > 6 {
+				first = first[:6]
+			}
+			try(label, first, false)
+			for start := 0; start < len(vcs) && start < 240; start += 24 {
+				mu.Lock()
+				done := out[label]
+				mu.Unlock()
+				if done {
+					return
+				}
+				end := start + 24
+				if end > len(vcs) {
+					end = len(vcs)
+				}
+				try(label, vcs[start:end], true)
+			}
+		}(label)
+	}
+	wg.Wait()
 	return out
 }
 
